@@ -77,7 +77,17 @@ def lemma_obligations(ctx: Ctx, lem: api.Lemma):
         hyp = [Pure(ctx, env2).b(_parse_spec(r)) for r in lem.requires]
         con = [Pure(ctx, env2).b(_parse_spec(e)) for e in lem.ensures]
         ih = z3.Implies(z3.And(d1 >= 0, d1 < d0, *hyp), z3.And(*con))
-        pc.append(z3.ForAll(gen, ih) if gen else ih)
+        if gen:
+            # alternative patterns for the generalised hypothesis: the lemma's trigger terms at the shifted index
+            pats = []
+            for t in lem.triggers:
+                try:
+                    pats.append(Pure(ctx, env2).ev(_parse_spec(t)).t)
+                except Exception:  # noqa: BLE001
+                    pass
+            pc.append(z3.ForAll(gen, ih, patterns=pats) if pats else z3.ForAll(gen, ih))
+        else:
+            pc.append(ih)
     if not ctx.expand_quant:
         for u in lem.uses:
             pc.append(lemma_fact(ctx, u))
